@@ -63,6 +63,66 @@ static std::string text_of(const Civ& c, Date::Format f, int msec, bool z) {
 	return z ? s + "Z" : s;
 }
 
+// ---- independent reader of an ISO 8601 date-time text, complete in ONE layout (extended yyyy-mm-ddThh:mm[:ss[.f]] with Z / +hh /
+// +hh:mm, or basic yyyymmddThhmm[ss[.f]] with Z / +hh / +hhmm, or without zone designator). The texts the library produces are
+// compared through what they DENOTE (the statement demands that they parse back to the instant, not one spelling): any valid
+// spelling of the named format passes - more or fewer fraction digits, a numeric offset instead of Z, an omitted zero seconds field.
+struct Iso {
+	int64_t sec;       // the fields read as a UTC calendar time, in seconds since the epoch
+	int nfrac;         // number of fraction digits
+	long double fms;   // the fraction in milliseconds (all digits)
+	int zone, off;     // 0 = no designator (local time), 1 = Z, 2 = numeric; seconds east of UTC
+};
+static int num(const std::string& s, size_t p, int n) {
+	if (p + n > s.size()) return -1;
+	int x = 0;
+	for (int i = 0; i < n; i++) { if (s[p + i] < '0' || s[p + i] > '9') return -1; x = x * 10 + (s[p + i] - '0'); }
+	return x;
+}
+static bool read_iso(const std::string& s, bool basic, Iso& o) {
+	size_t p = 0;
+	int y = num(s, p, 4); p += 4;
+	if (!basic) { if (p >= s.size() || s[p] != '-') return false; p++; }
+	int m = num(s, p, 2); p += 2;
+	if (!basic) { if (p >= s.size() || s[p] != '-') return false; p++; }
+	int d = num(s, p, 2); p += 2;
+	if (y < 0 || m < 1 || m > 12 || d < 1 || p >= s.size() || s[p] != 'T') return false;
+	p++;
+	static const int ml[] = { 31, 28, 31, 30, 31, 30, 31, 31, 30, 31, 30, 31 };
+	if (d > ml[m - 1] + (m == 2 && y % 4 == 0 && (y % 100 != 0 || y % 400 == 0))) return false;
+	int hh = num(s, p, 2); p += 2;
+	if (!basic) { if (p >= s.size() || s[p] != ':') return false; p++; }
+	int mi = num(s, p, 2); p += 2;
+	int ss = 0;
+	o.nfrac = 0; o.fms = 0;
+	if (!basic ? (p < s.size() && s[p] == ':') : (p < s.size() && s[p] >= '0' && s[p] <= '9')) {
+		if (!basic) p++;
+		ss = num(s, p, 2); p += 2;
+		if (ss < 0) return false;
+		if (p < s.size() && (s[p] == '.' || s[p] == ',')) {
+			p++;
+			long double w = 100;
+			while (p < s.size() && s[p] >= '0' && s[p] <= '9') { o.fms += (s[p] - '0') * w; w /= 10; o.nfrac++; p++; }
+			if (!o.nfrac) return false;
+		}
+	}
+	if (hh < 0 || hh > 23 || mi < 0 || mi > 59 || ss > 59) return false;
+	o.sec = days_from_civil(y, (unsigned)m, (unsigned)d) * 86400 + hh * 3600 + mi * 60 + ss;
+	o.zone = 0; o.off = 0;
+	if (p == s.size()) return true;
+	if (s[p] == 'Z') { o.zone = 1; return p + 1 == s.size(); }
+	if (s[p] != '+' && s[p] != '-') return false;
+	int sg = s[p] == '-' ? -1 : 1; p++;
+	int zh = num(s, p, 2), zm = 0; p += 2;
+	if (p < s.size()) {
+		if (!basic) { if (s[p] != ':') return false; p++; }
+		zm = num(s, p, 2); p += 2;
+	}
+	if (zh < 0 || zh > 23 || zm < 0 || zm > 59 || p != s.size()) return false;
+	o.zone = 2; o.off = sg * (zh * 3600 + zm * 60);
+	return true;
+}
+
 // ---- the zone the process runs in: UTC (first pass) or a fixed offset without DST (second pass). Switched in the
 // coordinating process between vf::parallel calls (the workers are forked per call) and in a replay worker.
 static int ZOFF = 0;       // seconds east of UTC
@@ -76,9 +136,19 @@ static void set_zone(bool z) {
 
 static int C_EVAL, C_DISTINCT, C_FASTPATH, C_SLOWPATH, C_LEAPDAY, C_PARSE_VALID, C_PARSE_INVALID, C_FMTPARSE;
 static int C_ISO_VALID, C_ISO_INVALID, C_HTTP_VALID, C_TZPASS, C_TZ_OTHERDAY, C_TIE, C_TIE_SEC, C_TIE_DAY, C_TIE_YEAR, C_TIE_TZ,
-	C_NOSEC, C_NOSEC_Z, C_SPELL[3], C_FRACNEG, C_FRACLOCAL, C_SHAPE, C_SHAPE_VALID, C_LONGSTR;
+	C_NOSEC, C_NOSEC_Z, C_SPELL[3], C_FRACNEG, C_FRACLOCAL, C_SHAPE, C_SHAPE_VALID, C_LONGSTR, C_MIXED_VALUE, C_MIXED_INVALID;
 
 static void bad(const char* sig, const std::string& desc, const std::string& kase) { vf::violation(sig, desc, kase); }
+// the instant a text denotes, in milliseconds since the epoch (a text without zone designator shows the local time of the process zone)
+static long double denoted_ms(const Iso& o) { return (long double)(o.sec - (o.zone == 2 ? o.off : o.zone == 1 ? 0 : ZOFF)) * 1000.0L + o.fms; }
+// an ISO text of a whole second t: a valid text of the layout of the format (SHORT: basic, else extended; FULL: with at least the
+// milliseconds) that denotes exactly t. The HTTP text (IMF-fixdate of RFC 7231, fixed length) is determined completely by the RFC.
+static bool iso_text_is(const String& s, Date::Format f, double t) {
+	Iso o;
+	if (!read_iso(vfx::S(s), f == Date::SHORT, o)) return false;
+	if (f == Date::FULL && o.nfrac < 3) return false;
+	return denoted_ms(o) == (long double)t * 1000.0L;
+}
 // ASan verdict of a value case (the robustness cases have their own in parse_one)
 static void oob_check(const std::string& kase) {
 	if (!vf::asan_tripped()) return;
@@ -122,25 +192,27 @@ static void check_instant(int64_t day, int sod, int formats) {
 			String s = date.toUTCString(fs[i]);
 			std::string e = text_of(cu, fs[i], 0, true);
 			vf::add(C_FMTPARSE);
-			if (vfx::S(s) != e) bad("format", fmt("toUTCString(%d) of %.0f = '%s', expected '%s'", (int)fs[i], t, *s, e.c_str()), kase);
+			if (fs[i] == Date::HTTP ? vfx::S(s) != e : !iso_text_is(s, fs[i], t))
+				bad("format", fmt("toUTCString(%d) of %.0f = '%s', expected '%s'%s", (int)fs[i], t, *s, e.c_str(), fs[i] == Date::HTTP ? "" : " or another ISO 8601 text of this layout that denotes the same instant"), kase);
 			Date r;
 			{ vfx::Flush fl(s); r = Date(s); }
 			if (!(r.time() == t)) bad("format_parse", fmt("Date('%s').time() = %.3f, expected %.0f", *s, r.time(), t), kase);
-			if (formats >= 2 && fs[i] != Date::HTTP && cl.y <= 9999) { // local rendering: the fields of the instant shifted by the zone offset, no Z, parsed as local time
+			if (formats >= 2 && fs[i] != Date::HTTP && cl.y <= 9999) { // local rendering: without designator the fields of the instant shifted by the zone offset (or a text with a numeric offset), parsed back
 				String l = date.toString(fs[i]);
 				Date rl;
 				{ vfx::Flush fl(l); rl = Date(l); }
 				std::string el = text_of(cl, fs[i], 0, false);
-				if (vfx::S(l) != el || !(rl.time() == t)) bad("format_parse_local", fmt("toString(%d) = '%s' -> %.3f, expected '%s' -> %.0f (zone offset %+d s)", (int)fs[i], *l, rl.time(), el.c_str(), t, ZOFF), kase);
+				if (!iso_text_is(l, fs[i], t) || !(rl.time() == t)) bad("format_parse_local", fmt("toString(%d) = '%s' -> %.3f, expected '%s' (or another ISO 8601 text of this layout denoting the instant) -> %.0f (zone offset %+d s)", (int)fs[i], *l, rl.time(), el.c_str(), t, ZOFF), kase);
 			}
 		}
 	}
 	oob_check(kase);
 }
 
-// Instants with a fraction. "To the millisecond": the FULL text must be the rendering of a whole millisecond M that is the
-// truncation of t or a nearest millisecond of t (0.05 ms of slack for the implementation's own floating-point rounding), all
-// of its fields taken from that one M; the second-resolution texts and splitUTC must be the fields of the second of such an M.
+// Instants with a fraction. "To the millisecond": the FULL text must be an ISO text with at least the milliseconds that denotes an
+// instant within one millisecond of t (truncation, rounding to nearest and rounding up all qualify; 0.05 ms of slack for the
+// implementation's own floating-point rounding); splitUTC and the texts without a fraction must show the second of a whole
+// millisecond M within one millisecond of t; a LONG / SHORT text that shows a fraction is held to the precision it shows.
 static void check_fraction(double t, bool light) {
 	std::string kase = KP + "frac:" + vf::hex(&t, sizeof t);
 	vf::cur(kase);
@@ -149,11 +221,11 @@ static void check_fraction(double t, bool light) {
 	if (M0 - 1 < DAY0 * 86400000LL || M0 + 1 >= (DAYN + 1) * 86400000LL) return; // touches year 0 or 10000: outside the stated range
 	int64_t cand[3]; int nc = 0;
 	for (int64_t M = M0 - 1; M <= M0 + 1; M++)
-		if (M == (int64_t)floorl(x) || fabsl((long double)M - x) <= 0.55L) cand[nc++] = M;
+		if (fabsl((long double)M - x) <= 1.05L) cand[nc++] = M;
 	vf::add(C_EVAL); if (!ZOFF) vf::add(C_DISTINCT); else vf::add(C_TZPASS);
-	if (fabsl(x - floorl(x) - 0.5L) < 0.01L) {
+	if (fabsl(x - floorl(x) - 0.5L) < 0.01L) { // witnesses: the two milliseconds nearest to a rounding tie lie in different seconds / days / years
 		vf::add(C_TIE);
-		Civ a = civ_of(fdiv(cand[0], 1000)), b = civ_of(fdiv(cand[nc - 1], 1000));
+		Civ a = civ_of(fdiv((int64_t)floorl(x), 1000)), b = civ_of(fdiv((int64_t)floorl(x) + 1, 1000));
 		if (a.sod != b.sod) vf::add(C_TIE_SEC);
 		if (a.day != b.day) vf::add(C_TIE_DAY);
 		if (a.y != b.y) vf::add(C_TIE_YEAR);
@@ -165,12 +237,9 @@ static void check_fraction(double t, bool light) {
 	if (!light) { vfx::Flush fl(s); r = Date(s); } // light: the text is compared below, parsing it back is left to the other families
 	if (!(fabs(r.time() - t) <= 0.001 + 1e-4)) bad("full_ms", fmt("Date(%.9f).toUTCString(FULL) = '%s' which parses to %.6f (off by %.4f s)", t, *s, r.time(), r.time() - t), kase);
 	bool ok = false; std::string exps;
-	for (int i = 0; i < nc; i++) {
-		std::string e = text_of(civ_of(fdiv(cand[i], 1000)), Date::FULL, (int)(cand[i] - fdiv(cand[i], 1000) * 1000), true);
-		if (vfx::S(s) == e) ok = true;
-		exps += (i ? "' or '" : "") + e;
-	}
-	if (!ok) bad("full_text", fmt("Date(%.9f) FULL = '%s', expected '%s'", t, *s, exps.c_str()), kase);
+	for (int i = 0; i < nc; i++) exps += (i ? "' or '" : "") + text_of(civ_of(fdiv(cand[i], 1000)), Date::FULL, (int)(cand[i] - fdiv(cand[i], 1000) * 1000), true);
+	{ Iso o; ok = read_iso(vfx::S(s), false, o) && o.nfrac >= 3 && fabsl(denoted_ms(o) - x) <= 1.05L; }
+	if (!ok) bad("full_text", fmt("Date(%.9f) FULL = '%s', expected '%s' (or another ISO 8601 text with milliseconds that denotes an instant within 1 ms)", t, *s, exps.c_str()), kase);
 	DateData p = date.splitUTC();
 	ok = false;
 	for (int i = 0; i < nc; i++) {
@@ -183,7 +252,11 @@ static void check_fraction(double t, bool light) {
 		for (int k = 0; k < 3; k++) {
 			String l = date.toUTCString(fs[k]);
 			ok = false;
-			for (int i = 0; i < nc; i++) if (vfx::S(l) == text_of(civ_of(fdiv(cand[i], 1000)), fs[k], 0, true)) ok = true;
+			Iso o;
+			if (fs[k] == Date::HTTP) { for (int i = 0; i < nc; i++) if (vfx::S(l) == text_of(civ_of(fdiv(cand[i], 1000)), fs[k], 0, true)) ok = true; }
+			else if (!read_iso(vfx::S(l), fs[k] == Date::SHORT, o)) ok = false;
+			else if (o.nfrac == 0) { for (int i = 0; i < nc; i++) if (denoted_ms(o) == (long double)fdiv(cand[i], 1000) * 1000.0L) ok = true; } // the second of a millisecond within 1 ms of t
+			else ok = fabsl(denoted_ms(o) - x) <= (o.nfrac == 1 ? 100.0L : o.nfrac == 2 ? 10.0L : 1.0L) + 0.05L;            // a shown fraction: right to the precision shown
 			Date rl;
 			{ vfx::Flush fl(l); rl = Date(l); }
 			if (!ok || !(fabs(rl.time() - t) <= 1.0)) bad("long_sec", fmt("Date(%.9f).toUTCString(%d) = '%s' which parses to %.3f", t, (int)fs[k], *l, rl.time()), kase);
@@ -228,7 +301,10 @@ static void check_zone(int offmin, int spelling, int64_t day, int sod) {
 				if (nosec && form) vf::add(C_NOSEC_Z);
 				Date r;
 				{ vfx::Flush fl(s); r = Date(s); }
-				if (!(r.time() == exp)) bad("zone", fmt("Date('%s').time() = %.3f, expected %.0f (zone offset of the process %+d s)", *s, r.time(), exp, ZOFF), kase);
+				// basic date-time with +hh:mm, or extended with +hhmm: not an ISO 8601 text ("any other string"): a stricter parser may call it invalid
+				bool mixed = form == 0 && (basic ? spelling == 0 : spelling == 1);
+				if (mixed) vf::add(r.time() != r.time() ? C_MIXED_INVALID : C_MIXED_VALUE);
+				if (!(r.time() == exp) && !(mixed && r.time() != r.time())) bad("zone", fmt("Date('%s').time() = %.3f, expected %.0f (zone offset of the process %+d s)", *s, r.time(), exp, ZOFF), kase);
 			}
 		}
 	oob_check(kase);
@@ -254,7 +330,9 @@ static void check_fracdigits(int ndig, int pattern, int64_t day, int sod) {
 			if (zs[zi][0] == '-') vf::add(C_FRACNEG);
 			if (!zs[zi][0]) vf::add(C_FRACLOCAL);
 			// the statement promises the millisecond: a parser that keeps only three digits is accepted
-			if (!(fabs(r.time() - exp) < 0.001 + 1e-6)) bad("fracdigits", fmt("Date('%s').time() = %.9f, expected %.9f", *s, r.time(), exp), kase);
+			bool mixed = strlen(zs[zi]) == (basic ? 6u : 5u); // offset in the other layout: not ISO 8601, may be invalid
+			if (mixed) vf::add(r.time() != r.time() ? C_MIXED_INVALID : C_MIXED_VALUE);
+			if (!(fabs(r.time() - exp) < 0.001 + 1e-6) && !(mixed && r.time() != r.time())) bad("fracdigits", fmt("Date('%s').time() = %.9f, expected %.9f", *s, r.time(), exp), kase);
 		}
 	oob_check(kase);
 }
@@ -440,6 +518,7 @@ int main(int argc, char** argv) {
 	C_FRACNEG = vf::counter("w.fraction_with_negative_offset"); C_FRACLOCAL = vf::counter("w.fraction_without_zone");
 	C_SHAPE = vf::counter("w.structure_vector_strings"); C_SHAPE_VALID = vf::counter("w.structure_vector_gave_value"); C_LONGSTR = vf::counter("w.strings_of_length_32_to_40");
 	C_DETM = vf::counter("w.http_strings_compared_under_three_heap_fills");
+	C_MIXED_VALUE = vf::counter("mixed_layout_offset_gave_value"); C_MIXED_INVALID = vf::counter("mixed_layout_offset_gave_invalid"); // either may be 0: not w.*
 	if (vf::opt.replay && vf::opt.kase.compare(0, 5, "detm:") == 0) { std::string one = vf::unhex(vf::opt.kase.substr(5)); Detm d = detm_start(one); detm_finish(d, one); return vf::finish(); }
 	if (vf::opt.replay) { vf::parallel(1, [&](uint64_t) { run_case(vf::opt.kase); }); return vf::finish(); }
 	bool T = vf::opt.thorough();
